@@ -1,1 +1,974 @@
-From MJ Require Import Common.Base Lang.Syntax Lang.Meta Lang.Interp C18.Old.
+(* C18: the static report of undeclared variables contains every key the interpreter asks the
+   render context for.  Mutual induction on the interpreter's fuel over eval / call_macro / exec /
+   exec_list; the list-walking combinators of Lang/Interp.v each get a lemma of their own. *)
+From MJ Require Import Common.Base Lang.Syntax Lang.Meta Lang.Interp C18.Old C18.Tracker C18.Runtime.
+
+Section Main.
+Variable c : cfg.
+Hypothesis Hroot : root_good c.
+Let m := c_mode c.
+
+(* ---- small accessors ---- *)
+Lemma step_ok_sext o s s' : step_ok c o s s' -> sext s s'.
+Proof. intros H. apply H. Qed.
+Lemma step_ok_sgood o s s' : step_ok c o s s' -> sgood s'.
+Proof. intros H. apply H. Qed.
+Lemma step_ok_lmono o s s' : step_ok c o s s' -> lmono c s s'.
+Proof. intros H. apply sext_lmono, H. Qed.
+Lemma sext_clos s s' : sext s s' -> clos_ext (s_clos s) (s_clos s').
+Proof. intros (f & e & f' & _ & _ & _ & H). exact H. Qed.
+Lemma step_ok_clos o s s' : step_ok c o s s' -> clos_ext (s_clos s) (s_clos s').
+Proof. intros H. apply sext_clos, H. Qed.
+
+Lemma asks_in_eq P a a' b b' : s_asks a = s_asks a' -> s_asks b = s_asks b' -> asks_in P a b -> asks_in P a' b'.
+Proof. intros E1 E2 (l & E & H). exists l. rewrite <- E1, <- E2. auto. Qed.
+
+(* ---- lookups ---- *)
+Lemma lookup_ok o s x v s1 : lookup c s x = (v, s1) -> sgood s -> (localb c s x = false -> mem x o = true) ->
+  step_ok c o s s1 /\ (forall w, v = Some w -> vgood (s_clos s1) w) /\ s_env s1 = s_env s /\ s_clos s1 = s_clos s /\ s_out s1 = s_out s.
+Proof.
+  intros Hl Hg Ho. destruct (lookup_spec c s x) as (v' & E & Hv). rewrite E in Hl. injection Hl as Ev Es. subst s1.
+  cbn [s_env s_clos s_out]. split; [|split; [|auto]].
+  - split; [|split].
+    + apply eext_sext; [apply Hg|]. split; [reflexivity|apply clos_ext_refl].
+    + destruct Hg as (H1 & H2 & H3). unfold sgood. cbn [s_env s_clos]. auto.
+    + cbn [s_asks]. destruct (localb c s x) eqn:El.
+      * apply asks_in_refl. reflexivity.
+      * exists [x]. split; [reflexivity|]. intros y [<-|[]]. split; auto.
+  - intros w Hw. destruct Hg as (H1 & H2 & H3). eapply load_good; eauto. rewrite <- Hv, Ev. exact Hw.
+Qed.
+
+(* ---- values produced by the operators are well formed ---- *)
+Lemma do_bin_good C op x y r : do_bin op x y = Ok r -> vgood C r.
+Proof.
+  unfold do_bin. intros H.
+  repeat match type of H with
+         | context [match ?a with _ => _ end] => destruct a; try discriminate
+         end; inversion H; exact I.
+Qed.
+
+Lemma idx_list_good C l z v : Forall (vgood C) l -> idx_list l z = Some v -> vgood C v.
+Proof.
+  unfold idx_list. intros Hl. destruct ((0 <=? (if z <? 0 then z + lenZ l else z)) && ((if z <? 0 then z + lenZ l else z) <? lenZ l)); [|discriminate].
+  intros H. apply nth_error_In in H. rewrite Forall_forall in Hl. auto.
+Qed.
+
+Lemma loop_attr_good C i n a v : loop_attr i n a = Some v -> vgood C v.
+Proof.
+  unfold loop_attr. intros H.
+  repeat match type of H with
+         | context [if ?a then _ else _] => destruct a
+         end; inversion H; exact I.
+Qed.
+
+Lemma do_filter_good C md esc f v args r : do_filter md esc f v args = Ok r -> vgood C v -> Forall (vgood C) args -> vgood C r.
+Proof.
+  assert (Hlast : forall l, Forall (vgood C) l -> vgood C (match rev l with x :: _ => x | [] => VUndef end)).
+  { intros l Hl. destruct (rev l) eqn:Er; [exact I|]. rewrite Forall_forall in Hl. apply Hl, in_rev. rewrite Er. left. reflexivity. }
+  unfold do_filter, bind, u_not_undef. intros H Hv Ha.
+  repeat match type of H with
+         | context [if (f =? ?k) then _ else _] => destruct (f =? k)
+         | context [if (?a || ?b) then _ else _] => destruct (a || b)
+         end;
+  destruct v; try discriminate;
+  repeat match type of H with
+         | context [if ?a then _ else _] => destruct a; try discriminate
+         | context [match ?a with _ => _ end] => is_var a; destruct a; try discriminate
+         end;
+  try discriminate;
+  inversion H; subst; clear H;
+  first [ exact I | exact Hv | (apply Hlast; apply vgood_list; exact Hv)
+        | (apply vgood_list in Hv; inversion Hv; assumption)
+        | (inversion Ha; assumption) ].
+Qed.
+
+Lemma range_list_good C fuel i n : Forall (vgood C) (range_list fuel i n).
+Proof. revert i. induction fuel; intros i; cbn; [constructor|]. destruct (i <? n); constructor; auto. exact I. Qed.
+
+(* ---- binding a loop target ---- *)
+Lemma bind_target_ok o tg s item s' : bind_target tg s item = Ok s' -> sgood s -> vgood (s_clos s) item ->
+  step_ok c o s s' /\ (forall t s0, nonempty t -> Inv c t s0 -> lmono c s0 s -> Inv c (assign_target tg t) s').
+Proof.
+  intros H Hg Hv. destruct tg as [x|x y]; cbn [bind_target assign_target] in *.
+  - inversion H; subst. split; [apply store_step_ok; auto|].
+    intros t s0 Hn Hi Hl. eapply Inv_assign; eauto.
+    + eapply lmono_trans; [apply Hl|]. apply sext_lmono, store_sext, Hg.
+    + apply store_local, Hg.
+  - destruct item; try discriminate. destruct l as [|a [|b [|? ?]]]; try discriminate. inversion H; subst.
+    apply vgood_list in Hv. inversion Hv as [|? ? Ha Hb']; subst. inversion Hb' as [|? ? Hb _]; subst.
+    assert (S1 := store_step_ok c o s x a Hg Ha).
+    assert (Hb2 : vgood (s_clos (store s x a)) b) by (eapply vgood_mono; [apply store_clos_ext|exact Hb]).
+    assert (S2 := store_step_ok c o (store s x a) y b (step_ok_sgood _ _ _ S1) Hb2).
+    split; [eapply step_ok_trans; eauto; apply omono_refl|].
+    intros t s0 Hn Hi Hl.
+    assert (I1 : Inv c (t_assign x t) (store s x a)).
+    { eapply Inv_assign; eauto; [eapply lmono_trans; [apply Hl|apply (step_ok_lmono _ _ _ S1)]|apply store_local, Hg]. }
+    eapply Inv_assign; [eapply tstep_nonempty, tstep_assign, Hn|apply I1|apply (step_ok_lmono _ _ _ S2)|apply store_local].
+    apply (step_ok_sgood _ _ _ S1).
+Qed.
+
+(* ---- leaving a run-time scope ---- *)
+Lemma scoped_step o s F sb : sgood s -> f_base F = false -> step_ok c o (push_frame s F) sb -> step_ok c o s (pop_frame sb).
+Proof.
+  intros Hg Hb (X1 & X2 & X3). destruct (pop_sext s F sb (proj1 Hg) X1) as [Y1 Y2].
+  split; [exact Y1|]. split; [eapply pop_sgood; eauto; apply Hg|].
+  eapply asks_in_eq; [| |eapply asks_in_weaken; [|apply X3]]; try reflexivity.
+  intros x. apply AP_weaken; [apply omono_refl|apply push_lmono, Hb].
+Qed.
+
+Lemma loop_local s f e i n : s_env s = f :: e -> f_loop f = Some (i, n, true) -> localb c s N_loop = true.
+Proof.
+  intros E Hl. unfold localb. rewrite E, load_cons. unfold frame_find. rewrite Hl.
+  destruct (assoc N_loop (f_locals f)); [reflexivity|]. rewrite Z.eqb_refl. reflexivity.
+Qed.
+
+Lemma loop_exposed_local s f e : s_env s = f :: e -> loop_exposed f = true -> localb c s N_loop = true.
+Proof.
+  intros E Hl. unfold loop_exposed in Hl. destruct (f_loop f) as [[[i n] [|]]|] eqn:El; try discriminate.
+  eapply loop_local; eauto.
+Qed.
+
+(* ---- what the four mutually recursive functions guarantee ---- *)
+Definition eval_spec (ev : st -> expr -> outcome (value * st)) : Prop :=
+  forall s e v s' t, ev s e = Ok (v, s') -> sgood s -> nonempty t -> Inv c t s ->
+    step_ok c (t_out (visit_expr e t)) s s' /\ vgood (s_clos s') v.
+
+Definition call_spec (cm : st -> macro -> option nat -> list value -> list (name * value) -> outcome (value * st)) : Prop :=
+  forall s mc cl args kwargs v s', cm s mc cl args kwargs = Ok (v, s') -> sgood s -> mgood (s_clos s) mc cl ->
+    Forall (vgood (s_clos s)) args -> Forall (fun kv => vgood (s_clos s) (snd kv)) kwargs ->
+    step_ok c [] s s' /\ vgood (s_clos s') v.
+
+Definition exec_spec (ex : st -> stmt -> outcome (signal * st)) : Prop :=
+  forall s st sg s' t, ex s st = Ok (sg, s') -> sgood s -> nonempty t -> Inv c t s ->
+    step_ok c (t_out (walk st t)) s s' /\ (sg = SigNormal -> Inv c (walk st t) s').
+
+Definition exec_list_spec (ex : st -> list stmt -> outcome (signal * st)) : Prop :=
+  forall s l sg s' t, ex s l = Ok (sg, s') -> sgood s -> nonempty t -> Inv c t s ->
+    step_ok c (t_out (walk_list l t)) s s' /\ (sg = SigNormal -> Inv c (walk_list l t) s').
+
+(* after an expression ran, the invariant holds for the tracker that visited it *)
+Lemma Inv_after_expr e t s s' : nonempty t -> Inv c t s -> lmono c s s' -> Inv c (visit_expr e t) s'.
+Proof. intros Hn Hi Hl. eapply Inv_soft; eauto. apply visit_expr_soft, Hn. Qed.
+
+Lemma visit_expr_omono e t : nonempty t -> omono (t_out t) (t_out (visit_expr e t)).
+Proof. intros Hn. apply tsoft_omono, visit_expr_soft, Hn. Qed.
+Lemma visit_expr_nonempty e t : nonempty t -> nonempty (visit_expr e t).
+Proof. intros Hn. eapply tsoft_nonempty, visit_expr_soft, Hn. Qed.
+
+Lemma visit_kw_soft' {K} (l : list (K * expr)) t : nonempty t -> tsoft t (visit_kw l t).
+Proof. intros H. apply visit_kw_soft; auto. apply Forall_forall. intros e _. apply visit_expr_soft. Qed.
+
+Lemma vgood_step o s s' v : step_ok c o s s' -> vgood (s_clos s) v -> vgood (s_clos s') v.
+Proof. intros H. apply vgood_mono, (step_ok_clos _ _ _ H). Qed.
+
+(* ---- map_eval ---- *)
+Lemma map_eval_ok ev : eval_spec ev -> forall l s vs s' t, map_eval ev s l = Ok (vs, s') -> sgood s -> nonempty t -> Inv c t s ->
+  step_ok c (t_out (visit_list l t)) s s' /\ Forall (vgood (s_clos s')) vs.
+Proof.
+  intros Hev. induction l as [|x r IH]; intros s vs s' t H Hg Hn Hi; cbn [map_eval] in H.
+  - inversion H; subst. split; [apply step_ok_refl, Hg|constructor].
+  - apply bind_ok in H as ([v s1] & H1 & H). apply bind_ok in H as ([vs' s2] & H2 & H). inversion H; subst. clear H.
+    destruct (Hev _ _ _ _ t H1 Hg Hn Hi) as [A1 A2].
+    assert (Hn1 := visit_expr_nonempty x t Hn).
+    assert (I1 : Inv c (visit_expr x t) s1) by (eapply Inv_after_expr; [exact Hn|exact Hi|apply (step_ok_lmono _ _ _ A1)]).
+    destruct (IH _ _ _ _ H2 (step_ok_sgood _ _ _ A1) Hn1 I1) as [B1 B2].
+    change (visit_list (x :: r) t) with (visit_list r (visit_expr x t)). split.
+    + eapply step_ok_trans; eauto. apply tsoft_omono, visit_list_soft', Hn1.
+    + constructor; auto. eapply vgood_step; eauto.
+Qed.
+
+Lemma map_eval_kw_ok ev : eval_spec ev -> forall (l : list (name * expr)) s kvs s' t, map_eval_kw ev s l = Ok (kvs, s') -> sgood s -> nonempty t -> Inv c t s ->
+  step_ok c (t_out (visit_kw l t)) s s' /\ Forall (fun kv => vgood (s_clos s') (snd kv)) kvs.
+Proof.
+  intros Hev. induction l as [|[k x] r IH]; intros s vs s' t H Hg Hn Hi; cbn [map_eval_kw] in H.
+  - inversion H; subst. split; [apply step_ok_refl, Hg|constructor].
+  - apply bind_ok in H as ([v s1] & H1 & H). apply bind_ok in H as ([vs' s2] & H2 & H). inversion H; subst. clear H.
+    destruct (Hev _ _ _ _ t H1 Hg Hn Hi) as [A1 A2].
+    assert (Hn1 := visit_expr_nonempty x t Hn).
+    assert (I1 : Inv c (visit_expr x t) s1) by (eapply Inv_after_expr; [exact Hn|exact Hi|apply (step_ok_lmono _ _ _ A1)]).
+    destruct (IH _ _ _ _ H2 (step_ok_sgood _ _ _ A1) Hn1 I1) as [B1 B2].
+    change (visit_kw ((k, x) :: r) t) with (visit_kw r (visit_expr x t)). split.
+    + eapply step_ok_trans; eauto. apply tsoft_omono, visit_kw_soft', Hn1.
+    + constructor; auto. cbn [snd]. eapply vgood_step; eauto.
+Qed.
+
+(* ---- comparison chains ---- *)
+Lemma cmp_chain_ok ev : eval_spec ev -> forall (l : list (cmpop * expr)) left s v s' t, cmp_chain m ev left s l = Ok (v, s') -> sgood s -> nonempty t -> Inv c t s ->
+  step_ok c (t_out (visit_kw l t)) s s' /\ vgood (s_clos s') v.
+Proof.
+  intros Hev. induction l as [|[op x] r IH]; intros left s v s' t H Hg Hn Hi; cbn [cmp_chain] in H.
+  - inversion H; subst. split; [apply step_ok_refl, Hg|exact I].
+  - apply bind_ok in H as ([y s2] & H1 & H). apply bind_ok in H as (b & H2 & H).
+    destruct (Hev _ _ _ _ t H1 Hg Hn Hi) as [A1 A2].
+    assert (Hn1 := visit_expr_nonempty x t Hn).
+    change (visit_kw ((op, x) :: r) t) with (visit_kw r (visit_expr x t)).
+    assert (Om : omono (t_out (visit_expr x t)) (t_out (visit_kw r (visit_expr x t)))) by (apply tsoft_omono, visit_kw_soft', Hn1).
+    assert (Stop : forall w, Ok (VBool w, s2) = Ok (v, s') -> step_ok c (t_out (visit_kw r (visit_expr x t))) s s' /\ vgood (s_clos s') v).
+    { intros w E. inversion E; subst. split; [eapply step_ok_weaken; eauto|exact I]. }
+    destruct r as [|p r']; [eapply Stop; eauto|]. destruct b; [|eapply Stop; eauto].
+    assert (I1 : Inv c (visit_expr x t) s2) by (eapply Inv_after_expr; [exact Hn|exact Hi|apply (step_ok_lmono _ _ _ A1)]).
+    destruct (IH _ _ _ _ _ H (step_ok_sgood _ _ _ A1) Hn1 I1) as [B1 B2].
+    split; auto. eapply step_ok_trans; eauto.
+Qed.
+
+(* ---- macro arguments ---- *)
+Lemma bind_params_good C kwargs : Forall (fun kv => vgood C (snd kv)) kwargs -> forall ps pos bound,
+  bind_params kwargs ps pos = Ok bound -> Forall (vgood C) pos ->
+  Forall (fun kv => vgood C (snd kv)) bound /\ map fst bound = ps.
+Proof.
+  intros Hk. assert (Ha : forall p v, assoc p kwargs = Some v -> vgood C v).
+  { induction Hk as [|[k w] r Hw Hr IH]; intros p v; cbn [assoc]; [discriminate|]. destruct (p =? k); [intros E; inversion E; subst; exact Hw|apply IH]. }
+  induction ps as [|p ps IH]; intros pos bound H Hp; cbn [bind_params] in H.
+  - inversion H; subst. split; constructor.
+  - destruct pos as [|v pos']; destruct (assoc p kwargs) as [w|] eqn:Ea; try discriminate.
+    + apply bind_ok in H as (r & H1 & H). inversion H; subst. destruct (IH _ _ H1 Hp) as [B1 B2]. split; [constructor; eauto|cbn; congruence].
+    + apply bind_ok in H as (r & H1 & H). inversion H; subst. destruct (IH _ _ H1 Hp) as [B1 B2]. split; [constructor; [exact I|auto]|cbn; congruence].
+    + apply bind_ok in H as (r & H1 & H). inversion H; subst. inversion Hp; subst. destruct (IH _ _ H1 H4) as [B1 B2]. split; [constructor; auto|cbn; congruence].
+Qed.
+
+Definition visit_params_l (ds : list (name * expr)) (lp : list name) (t : tstate) : tstate :=
+  fold_left (fun t p => t_assign p (match default_of p ds with Some d => visit_expr d t | None => t end)) lp t.
+
+Lemma default_of_assoc p ds : default_of p ds = assoc p ds.
+Proof. induction ds as [|[k d] r IH]; cbn; auto. destruct (p =? k); auto. Qed.
+
+Lemma visit_params_l_step ds lp t : nonempty t -> tstep t (visit_params_l ds lp t).
+Proof.
+  revert t. induction lp as [|p l IH]; intros t Hn; cbn [visit_params_l fold_left].
+  - apply tstep_refl, Hn.
+  - assert (S1 : tstep t (match default_of p ds with Some d => visit_expr d t | None => t end)).
+    { destruct (default_of p ds); [apply visit_expr_step, Hn|apply tstep_refl, Hn]. }
+    assert (S2 := tstep_assign p _ (tstep_nonempty _ _ S1)).
+    eapply tstep_trans; [apply S1|]. eapply tstep_trans; [apply S2|]. apply IH. eapply tstep_nonempty, S2.
+Qed.
+
+Lemma store_args_ok ev ds : eval_spec ev -> forall l s s' t, store_args ev ds s l = Ok s' -> sgood s -> nonempty t -> Inv c t s ->
+  Forall (fun kv => vgood (s_clos s) (snd kv)) l ->
+  step_ok c (t_out (visit_params_l ds (map fst l) t)) s s' /\ Inv c (visit_params_l ds (map fst l) t) s'.
+Proof.
+  intros Hev. induction l as [|[p v] r IH]; intros s s' t H Hg Hn Hi Hl; cbn [store_args] in H.
+  - inversion H; subst. split; [apply step_ok_refl, Hg|exact Hi].
+  - inversion Hl as [|? ? Hv Hr]; subst. cbn [snd] in Hv. cbn [map fst visit_params_l fold_left].
+    rewrite default_of_assoc.
+    set (t1 := match assoc p ds with Some d => visit_expr d t | None => t end).
+    assert (Soft1 : tsoft t t1) by (unfold t1; destruct (assoc p ds); [apply visit_expr_soft, Hn|apply tsoft_refl, Hn]).
+    assert (Hn1 : nonempty t1) by (eapply tsoft_nonempty, Soft1).
+    assert (Hn2 : nonempty (t_assign p t1)) by (eapply tstep_nonempty, tstep_assign, Hn1).
+    assert (Om2 : omono (t_out (t_assign p t1)) (t_out (visit_params_l ds (map fst r) (t_assign p t1)))).
+    { apply tstep_omono, visit_params_l_step, Hn2. }
+    assert (Plain : forall s0, store_args ev ds (store s p v) r = Ok s0 -> s0 = s' ->
+              step_ok c (t_out (visit_params_l ds (map fst r) (t_assign p t1))) s s' /\ Inv c (visit_params_l ds (map fst r) (t_assign p t1)) s').
+    { intros s0 H0 ->. assert (S1 := store_step_ok c (t_out (t_assign p t1)) s p v Hg Hv).
+      assert (I1 : Inv c (t_assign p t1) (store s p v)).
+      { eapply Inv_assign; [exact Hn1| |apply (step_ok_lmono _ _ _ S1)|apply store_local, Hg]. eapply Inv_soft; eauto. apply lmono_refl. }
+      assert (Hr' : Forall (fun kv => vgood (s_clos (store s p v)) (snd kv)) r).
+      { eapply Forall_impl; [|apply Hr]. intros kv. apply vgood_mono, store_clos_ext. }
+      destruct (IH _ _ _ H0 (step_ok_sgood _ _ _ S1) Hn2 I1 Hr') as [B1 B2]. split; auto. eapply step_ok_trans; eauto. }
+    destruct (is_undef v); [|eapply Plain; eauto].
+    destruct (assoc p ds) as [d|] eqn:Ed; [|eapply Plain; eauto].
+    apply bind_ok in H as ([dv s1] & H1 & H).
+    destruct (Hev _ _ _ _ t H1 Hg Hn Hi) as [A1 A2]. fold t1 in A1.
+    assert (S1 := store_step_ok c (t_out (t_assign p t1)) s1 p dv (step_ok_sgood _ _ _ A1) A2).
+    assert (I1 : Inv c (t_assign p t1) (store s1 p dv)).
+    { eapply Inv_assign; [exact Hn1| |apply (step_ok_lmono _ _ _ S1)|apply store_local, (step_ok_sgood _ _ _ A1)].
+      eapply Inv_soft; eauto. apply (step_ok_lmono _ _ _ A1). }
+    assert (Hr' : Forall (fun kv => vgood (s_clos (store s1 p dv)) (snd kv)) r).
+    { eapply Forall_impl; [|apply Hr]. intros kv Hkv. eapply vgood_step; [apply S1|]. eapply vgood_step; eauto. }
+    destruct (IH _ _ _ H (step_ok_sgood _ _ _ S1) Hn2 I1 Hr') as [B1 B2]. split; auto.
+    eapply step_ok_trans; [|apply B1|exact Om2]. eapply step_ok_trans; [apply A1|apply S1|]. apply tstep_omono, tstep_assign, Hn1.
+Qed.
+
+(* ---- if / elif / else ---- *)
+Lemma walk_list_omono l t : nonempty t -> omono (t_out t) (t_out (walk_list l t)).
+Proof. intros Hn. apply tstep_omono, walk_list_step', Hn. Qed.
+
+Lemma walk_arms_step' els arms t : nonempty t -> tstep t (walk_arms els arms t).
+Proof.
+  intros Hn. apply walk_arms_step; auto.
+  - apply Forall_forall. intros a _. apply Forall_forall. intros s _. apply walk_step.
+  - intros b _. apply Forall_forall. intros s _. apply walk_step.
+Qed.
+
+Lemma scoped_body_soft' body t : nonempty t -> tsoft t (t_pop (walk_list body (t_push t))).
+Proof. intros Hn. apply scoped_body_soft; auto. apply Forall_forall. intros s _. apply walk_step. Qed.
+
+Lemma if_arms_ok ev ex els : eval_spec ev -> exec_list_spec ex ->
+  forall arms s sg s' t, if_arms m ev ex els s arms = Ok (sg, s') -> sgood s -> nonempty t -> Inv c t s ->
+  step_ok c (t_out (walk_arms els arms t)) s s' /\ (sg = SigNormal -> Inv c (walk_arms els arms t) s').
+Proof.
+  intros Hev Hex. induction arms as [|[cnd body] r IH]; intros s sg s' t H Hg Hn Hi; cbn [if_arms walk_arms] in *.
+  - destruct els as [b|]; [eapply Hex; eauto|]. inversion H; subst. split; [apply step_ok_refl, Hg|auto].
+  - apply bind_ok in H as ([v s1] & H1 & H). apply bind_ok in H as (b & H2 & H). cbn zeta.
+    destruct (Hev _ _ _ _ t H1 Hg Hn Hi) as [A1 _].
+    set (t1 := visit_expr cnd t) in *. assert (Hn1 : nonempty t1) by (apply visit_expr_nonempty, Hn).
+    assert (I1 : Inv c t1 s1) by (eapply Inv_after_expr; [exact Hn|exact Hi|apply (step_ok_lmono _ _ _ A1)]).
+    set (t2 := t_pop (walk_list body (t_push t1))) in *.
+    assert (Soft2 : tsoft t1 t2) by (apply scoped_body_soft', Hn1).
+    assert (Hn2 : nonempty t2) by (eapply tsoft_nonempty, Soft2).
+    set (T := match r, els with [], None => t_pop (t_push t2) | _, _ => t_pop (walk_arms els r (t_push t2)) end).
+    assert (SoftT : tsoft t2 T).
+    { unfold T. destruct r; [destruct els|]; apply tstep_push_pop; auto; try apply walk_arms_step', push_nonempty. apply tstep_refl, push_nonempty. }
+    assert (G1 : s_env s1 <> []) by (apply (step_ok_sgood _ _ _ A1)).
+    destruct b.
+    + (* this arm runs: its body is walked in a scope of its own *)
+      assert (Ip : Inv c (t_push t1) s1) by (eapply Inv_push; [exact I1|apply lmono_refl]).
+      destruct (Hex _ _ _ _ (t_push t1) H (step_ok_sgood _ _ _ A1) (push_nonempty t1) Ip) as [B1 _].
+      split.
+      * eapply step_ok_trans; [apply A1| |].
+        -- eapply step_ok_weaken; [apply B1|]. eapply omono_trans; [|apply tsoft_omono, SoftT]. unfold t2. intros x Hx. exact Hx.
+        -- eapply omono_trans; [apply tsoft_omono, Soft2|apply tsoft_omono, SoftT].
+      * intros _. eapply Inv_soft; [eapply tsoft_trans; [apply Soft2|apply SoftT]|exact I1|apply (step_ok_lmono _ _ _ B1)].
+    + (* the remaining arms *)
+      assert (I2 : Inv c t2 s1) by (eapply Inv_soft; [apply Soft2|exact I1|apply lmono_refl]).
+      destruct r as [|a r'].
+      * destruct els as [eb|].
+        -- assert (Ip : Inv c (t_push t2) s1) by (eapply Inv_push; [exact I2|apply lmono_refl]).
+           destruct (IH _ _ _ (t_push t2) H (step_ok_sgood _ _ _ A1) (push_nonempty t2) Ip) as [B1 _]. split.
+           ++ eapply step_ok_trans; [apply A1| |].
+              ** eapply step_ok_weaken; [apply B1|]. unfold T. intros x Hx. exact Hx.
+              ** eapply omono_trans; [apply tsoft_omono, Soft2|apply tsoft_omono, SoftT].
+           ++ intros _. eapply Inv_soft; [apply SoftT|exact I2|apply (step_ok_lmono _ _ _ B1)].
+        -- cbn [if_arms] in H. inversion H; subst. split.
+           ++ eapply step_ok_weaken; [apply A1|]. eapply omono_trans; [apply tsoft_omono, Soft2|apply tsoft_omono, SoftT].
+           ++ intros _. eapply Inv_soft; [apply SoftT|exact I2|apply lmono_refl].
+      * assert (Ip : Inv c (t_push t2) s1) by (eapply Inv_push; [exact I2|apply lmono_refl]).
+        destruct (IH _ _ _ (t_push t2) H (step_ok_sgood _ _ _ A1) (push_nonempty t2) Ip) as [B1 _]. split.
+        -- eapply step_ok_trans; [apply A1| |].
+           ++ eapply step_ok_weaken; [apply B1|]. unfold T. intros x Hx. exact Hx.
+           ++ eapply omono_trans; [apply tsoft_omono, Soft2|apply tsoft_omono, SoftT].
+        -- intros _. eapply Inv_soft; [apply SoftT|exact I2|apply (step_ok_lmono _ _ _ B1)].
+Qed.
+
+(* ---- with ---- *)
+Lemma with_binds_ok ev : eval_spec ev -> forall binds s s' t, with_binds ev s binds = Ok s' -> sgood s -> nonempty t -> Inv c t s ->
+  step_ok c (t_out (visit_binds binds t)) s s' /\ Inv c (visit_binds binds t) s'.
+Proof.
+  intros Hev. induction binds as [|[x e] r IH]; intros s s' t H Hg Hn Hi; cbn [with_binds] in H.
+  - inversion H; subst. split; [apply step_ok_refl, Hg|exact Hi].
+  - apply bind_ok in H as ([v s1] & H1 & H).
+    destruct (Hev _ _ _ _ t H1 Hg Hn Hi) as [A1 A2].
+    assert (Hn1 := visit_expr_nonempty e t Hn).
+    assert (S1 := store_step_ok c (t_out (t_assign x (visit_expr e t))) s1 x v (step_ok_sgood _ _ _ A1) A2).
+    assert (I1 : Inv c (t_assign x (visit_expr e t)) (store s1 x v)).
+    { eapply Inv_assign; [exact Hn1| |apply (step_ok_lmono _ _ _ S1)|apply store_local, (step_ok_sgood _ _ _ A1)].
+      eapply Inv_after_expr; [exact Hn|exact Hi|apply (step_ok_lmono _ _ _ A1)]. }
+    assert (Hn2 : nonempty (t_assign x (visit_expr e t))) by (eapply tstep_nonempty, tstep_assign, Hn1).
+    destruct (IH _ _ _ H (step_ok_sgood _ _ _ S1) Hn2 I1) as [B1 B2].
+    change (visit_binds ((x, e) :: r) t) with (visit_binds r (t_assign x (visit_expr e t))). split; auto.
+    eapply step_ok_trans; [|apply B1|apply tstep_omono, visit_binds_step, Hn2].
+    eapply step_ok_trans; [apply A1|apply S1|apply tstep_omono, tstep_assign, Hn1].
+Qed.
+
+(* ---- for: the filter pass ---- *)
+Definition loop_frame0 (n : Z) (expose : bool) : frame := mkFrame [] (Some (0, n, expose)) None None false.
+
+Lemma filter_items_ok ev tg fe t1 s0 : eval_spec ev -> nonempty t1 -> Inv c t1 s0 ->
+  forall l s kept s', filter_items m ev tg fe s l = Ok (kept, s') -> sgood s -> lmono c s0 s -> Forall (vgood (s_clos s)) l ->
+  step_ok c (t_out (visit_expr fe (assign_target tg (t_push t1)))) s s' /\ Forall (vgood (s_clos s')) kept.
+Proof.
+  intros Hev Hn1 Hi0. set (tf := assign_target tg (t_push t1)).
+  assert (Hnf : nonempty tf) by (eapply tstep_nonempty, assign_target_step, push_nonempty).
+  induction l as [|item r IH]; intros s kept s' H Hg Hl Hv; cbn [filter_items] in H.
+  - inversion H; subst. split; [apply step_ok_refl, Hg|constructor].
+  - cbn zeta in H. apply bind_ok in H as (sf1 & H1 & H). apply bind_ok in H as ([v sf2] & H2 & H).
+    apply bind_ok in H as (keep & H3 & H). apply bind_ok in H as ([rest s3] & H4 & H). inversion H; subst. clear H.
+    inversion Hv as [|? ? Hitem Hrest]; subst.
+    set (F := mkFrame [] (Some (0, 0, false)) None None false) in *.
+    set (sf := push_frame s F) in *.
+    assert (Gf : sgood sf) by (apply push_sgood; [exact Hg|apply fresh_frame_good]).
+    assert (Lf : lmono c s sf) by (apply push_lmono; reflexivity).
+    destruct (bind_target_ok (t_out (visit_expr fe tf)) tg sf item sf1 H1 Gf Hitem) as [A1 A2].
+    assert (If : Inv c tf sf1).
+    { apply (A2 (t_push t1) s0 (push_nonempty t1)); [eapply Inv_push; [exact Hi0|apply lmono_refl]|]. eapply lmono_trans; eauto. }
+    destruct (Hev _ _ _ _ tf H2 (step_ok_sgood _ _ _ A1) Hnf If) as [B1 B2].
+    assert (AB : step_ok c (t_out (visit_expr fe tf)) sf sf2) by (eapply step_ok_trans; [apply A1|apply B1|apply omono_refl]).
+    assert (P := scoped_step _ s F sf2 Hg eq_refl AB).
+    assert (Hrest' : Forall (vgood (s_clos (pop_frame sf2))) r).
+    { eapply Forall_impl; [|apply Hrest]. intros w. eapply vgood_step; eauto. }
+    assert (Ll : lmono c s0 (pop_frame sf2)) by (eapply lmono_trans; [apply Hl|apply (step_ok_lmono _ _ _ P)]).
+    destruct (IH _ _ _ H4 (step_ok_sgood _ _ _ P) Ll Hrest') as [C1 C2]. split.
+    + eapply step_ok_trans; [apply P|apply C1|apply omono_refl].
+    + destruct keep; auto. constructor; auto. eapply vgood_step; [apply C1|]. eapply vgood_step; eauto.
+Qed.
+
+(* ---- for: the iterations ---- *)
+Definition loop_state (n : Z) (O : list name) (s2 s : st) : Prop :=
+  sext (push_frame s2 (loop_frame0 n true)) s /\ sgood s /\ asks_in (AP c O s2) s2 s.
+
+Lemma loop_items_ok ex tg body n flt t1 s2 : exec_list_spec ex -> nonempty t1 -> Inv c t1 s2 -> sgood s2 ->
+  let tfv := match flt with Some f => visit_expr f (assign_target tg (t_push t1)) | None => assign_target tg (t_push t1) end in
+  let tb := t_assign N_loop tfv in
+  let O := t_out (walk_list body tb) in
+  forall l s i s', loop_items ex tg body n s i l = Ok s' -> loop_state n O s2 s -> Forall (vgood (s_clos s)) l ->
+  loop_state n O s2 s'.
+Proof.
+  intros Hex Hn1 Hi2 Hg2 tfv tb O.
+  assert (Hna : nonempty (assign_target tg (t_push t1))) by (eapply tstep_nonempty, assign_target_step, push_nonempty).
+  assert (Softv : tsoft (assign_target tg (t_push t1)) tfv).
+  { unfold tfv. destruct flt; [apply visit_expr_soft, Hna|apply tsoft_refl, Hna]. }
+  assert (Hnv : nonempty tfv) by (eapply tsoft_nonempty, Softv).
+  assert (Hnb : nonempty tb) by (eapply tstep_nonempty, tstep_assign, Hnv).
+  induction l as [|item r IH]; intros s i s' H Hs Hv; cbn [loop_items] in H.
+  - inversion H; subst. exact Hs.
+  - cbn zeta in H. destruct Hs as (X1 & X2 & X3).
+    destruct X1 as (f0 & e0 & f & E1 & E2 & FE & CE). cbn [push_frame s_env s_clos] in E1, CE. inversion E1; subst f0 e0. clear E1.
+    rewrite E2 in H.
+    set (Fi := mkFrame [] (Some (i, n, true)) (f_closure f) (f_closure_ctx f) false) in *.
+    set (sit := with_env s (Fi :: s_env s2)) in *.
+    apply bind_ok in H as (s3 & H1 & H). apply bind_ok in H as ([sg s4] & H2 & H).
+    assert (Xit : sext (push_frame s2 (loop_frame0 n true)) sit).
+    { exists (loop_frame0 n true), (s_env s2), Fi. split; [reflexivity|]. split; [reflexivity|]. split; [|exact CE].
+      destruct FE as (F1 & F2 & F3 & F4). split; [intros x Hx; cbn in Hx; congruence|]. split; [reflexivity|]. split; [exact F3|reflexivity]. }
+    assert (Git : sgood sit).
+    { destruct X2 as (G1 & G2 & G3). unfold sgood, sit, with_env. cbn [s_env s_clos]. split; [discriminate|]. split; auto.
+      rewrite E2 in G2. inversion G2 as [|? ? Gf Gr]; subst. constructor; auto. split; [cbn; intros; discriminate|]. apply Gf. }
+    assert (L2it : lmono c s2 sit).
+    { eapply lmono_trans; [apply (push_lmono c s2 (loop_frame0 n true) eq_refl)|apply sext_lmono, Xit]. }
+    inversion Hv as [|? ? Hitem Hrest]; subst.
+    destruct (bind_target_ok O tg sit item s3 H1 Git Hitem) as [A1 A2].
+    assert (Ia : Inv c (assign_target tg (t_push t1)) s3).
+    { apply (A2 (t_push t1) s2 (push_nonempty t1)); [eapply Inv_push; [exact Hi2|apply lmono_refl]|exact L2it]. }
+    assert (Ib : Inv c tb s3).
+    { eapply Inv_assign; [exact Hnv|eapply Inv_soft; [apply Softv|exact Ia|apply lmono_refl]|apply lmono_refl|].
+      destruct (step_ok_sext _ _ _ A1) as (fa & ea & fa' & Ea1 & Ea2 & FEa & _).
+      unfold sit, with_env in Ea1. cbn [s_env] in Ea1. inversion Ea1; subst fa ea.
+      eapply loop_exposed_local; [exact Ea2|]. apply FEa. reflexivity. }
+    destruct (Hex _ _ _ _ tb H2 (step_ok_sgood _ _ _ A1) Hnb Ib) as [B1 _]. fold O in B1.
+    assert (L23 : lmono c s2 s3) by (eapply lmono_trans; [exact L2it|apply (step_ok_lmono _ _ _ A1)]).
+    assert (Hs4 : loop_state n O s2 s4).
+    { split; [eapply sext_trans; [exact Xit|]; eapply sext_trans; [apply A1|apply B1]|]. split; [apply B1|].
+      eapply asks_in_trans; [exact X3|]. eapply asks_in_trans.
+      - eapply asks_in_eq; [| |eapply asks_in_weaken; [|apply A1]]; try reflexivity.
+        intros x. apply AP_weaken; [apply omono_refl|exact L2it].
+      - eapply asks_in_weaken; [|apply B1]. intros x. apply AP_weaken; [apply omono_refl|exact L23]. }
+    assert (Hrest4 : Forall (vgood (s_clos s4)) r).
+    { eapply Forall_impl; [|apply Hrest]. intros w Hw. eapply vgood_step; [apply B1|]. eapply vgood_step; [apply A1|]. exact Hw. }
+    destruct sg; [eapply IH; eauto| |eapply IH; eauto]. inversion H; subst. exact Hs4.
+Qed.
+
+(* ---- the induction on the fuel ---- *)
+Ltac bst H p E := apply bind_ok in H as (p & E & H).
+
+Lemma omono_nil o : omono [] o.
+Proof. intros x H. discriminate. Qed.
+
+Lemma eval1 ev s a x s1 t : eval_spec ev -> ev s a = Ok (x, s1) -> sgood s -> nonempty t -> Inv c t s ->
+  step_ok c (t_out (visit_expr a t)) s s1 /\ vgood (s_clos s1) x /\ Inv c (visit_expr a t) s1 /\ nonempty (visit_expr a t) /\ sgood s1.
+Proof.
+  intros Hev H Hg Hn Hi. destruct (Hev _ _ _ _ t H Hg Hn Hi) as [A1 A2]. split; auto. split; auto. split.
+  - eapply Inv_after_expr; [exact Hn|exact Hi|apply (step_ok_lmono _ _ _ A1)].
+  - split; [apply visit_expr_nonempty, Hn|apply A1].
+Qed.
+
+Lemma eval2 ev s a b x y s1 s2 t : eval_spec ev -> ev s a = Ok (x, s1) -> ev s1 b = Ok (y, s2) -> sgood s -> nonempty t -> Inv c t s ->
+  step_ok c (t_out (visit_expr b (visit_expr a t))) s s2 /\ vgood (s_clos s2) x /\ vgood (s_clos s2) y /\
+  Inv c (visit_expr b (visit_expr a t)) s2 /\ nonempty (visit_expr b (visit_expr a t)) /\ sgood s2.
+Proof.
+  intros Hev H1 H2 Hg Hn Hi.
+  destruct (eval1 _ _ _ _ _ t Hev H1 Hg Hn Hi) as (A1 & A2 & A3 & A4 & A5).
+  destruct (eval1 _ _ _ _ _ _ Hev H2 A5 A4 A3) as (B1 & B2 & B3 & B4 & B5).
+  split; [eapply step_ok_trans; [apply A1|apply B1|apply visit_expr_omono, A4]|]. split; [eapply vgood_step; eauto|]. auto.
+Qed.
+
+Definition all_specs (fuel : nat) : Prop :=
+  (forall esc, eval_spec (eval c fuel esc)) /\ (forall esc, call_spec (call_macro c fuel esc)) /\
+  (forall esc, exec_spec (exec c fuel esc)) /\ (forall esc, exec_list_spec (exec_list c fuel esc)).
+
+Lemma eval_step fuel : all_specs fuel -> forall esc, eval_spec (eval c (S fuel) esc).
+Proof.
+  intros (IHe & IHm & _ & _) esc s e v s' t H Hg Hn Hi. assert (He := IHe esc).
+  rewrite visit_expr_eq. cbn [eval] in H. destruct e.
+  - (* const *) assert (s' = s /\ vgood (s_clos s) v) as [-> Hv] by (destruct l; inversion H; subst; split; auto; exact I).
+    split; [apply step_ok_refl, Hg|exact Hv].
+  - (* var *) destruct (lookup c s x) as [v0 s1] eqn:E. inversion H; subst. clear H.
+    destruct (lookup_ok (t_out (t_lookup x t)) s x v0 s' E Hg) as (A1 & A2 & _).
+    { intros Hl. eapply lookup_late; [exact Hi|apply lmono_refl|exact Hl]. }
+    split; auto. destruct v0; [apply A2; reflexivity|exact I].
+  - (* list *) bst H p1 E1. destruct p1 as [vs s1]. inversion H; subst. clear H.
+    destruct (map_eval_ok _ He _ _ _ _ t E1 Hg Hn Hi) as [A1 A2]. split; auto. apply vgood_list, A2.
+  - (* neg *) bst H p1 E1. destruct p1 as [x s1]. destruct (eval1 _ _ _ _ _ t He E1 Hg Hn Hi) as (A1 & _).
+    destruct x; inversion H; subst. split; [exact A1|exact I].
+  - (* not *) bst H p1 E1. destruct p1 as [x s1]. bst H b E2. inversion H; subst. destruct (eval1 _ _ _ _ _ t He E1 Hg Hn Hi) as (A1 & _).
+    split; [exact A1|exact I].
+  - (* bin *) bst H p1 E1. destruct p1 as [x s1]. bst H p2 E2. destruct p2 as [y s2]. bst H u E3. bst H r E4. inversion H; subst.
+    destruct (eval2 _ _ _ _ _ _ _ _ t He E1 E2 Hg Hn Hi) as (A1 & _). split; [exact A1|]. eapply do_bin_good; eauto.
+  - (* cmp *) bst H p1 E1. destruct p1 as [x s1]. destruct (eval1 _ _ _ _ _ t He E1 Hg Hn Hi) as (A1 & A2 & A3 & A4 & A5).
+    destruct (cmp_chain_ok _ He _ _ _ _ _ _ H A5 A4 A3) as [B1 B2]. split; auto.
+    eapply step_ok_trans; [apply A1|apply B1|apply tsoft_omono, visit_kw_soft', A4].
+  - (* and *) bst H p1 E1. destruct p1 as [x s1]. bst H b E2. destruct (eval1 _ _ _ _ _ t He E1 Hg Hn Hi) as (A1 & A2 & A3 & A4 & A5).
+    destruct b.
+    + destruct (He _ _ _ _ _ H A5 A4 A3) as [B1 B2]. split; auto. eapply step_ok_trans; [apply A1|apply B1|apply visit_expr_omono, A4].
+    + inversion H; subst. split; auto. eapply step_ok_weaken; [apply A1|apply visit_expr_omono, A4].
+  - (* or *) bst H p1 E1. destruct p1 as [x s1]. bst H b E2. destruct (eval1 _ _ _ _ _ t He E1 Hg Hn Hi) as (A1 & A2 & A3 & A4 & A5).
+    destruct b.
+    + inversion H; subst. split; auto. eapply step_ok_weaken; [apply A1|apply visit_expr_omono, A4].
+    + destruct (He _ _ _ _ _ H A5 A4 A3) as [B1 B2]. split; auto. eapply step_ok_trans; [apply A1|apply B1|apply visit_expr_omono, A4].
+  - (* if-expression *) bst H p1 E1. destruct p1 as [x s1]. bst H b E2. destruct (eval1 _ _ _ _ _ t He E1 Hg Hn Hi) as (A1 & A2 & A3 & A4 & A5).
+    cbn zeta. set (t1 := visit_expr e1 t) in *. set (t2 := visit_expr e2 t1).
+    assert (Hn2 : nonempty t2) by (apply visit_expr_nonempty, A4).
+    assert (O12 : omono (t_out t1) (t_out t2)) by (apply visit_expr_omono, A4).
+    assert (OT : omono (t_out t2) (t_out (match f with Some f0 => visit_expr f0 t2 | None => t2 end))).
+    { destruct f; [apply visit_expr_omono, Hn2|apply omono_refl]. }
+    destruct b.
+    + destruct (He _ _ _ _ _ H A5 A4 A3) as [B1 B2]. split; auto.
+      eapply step_ok_weaken; [|exact OT]. eapply step_ok_trans; [apply A1|apply B1|exact O12].
+    + destruct f as [f0|].
+      * assert (I2 : Inv c t2 s1) by (eapply Inv_after_expr; [exact A4|exact A3|apply lmono_refl]).
+        destruct (He _ _ _ _ _ H A5 Hn2 I2) as [B1 B2]. split; auto.
+        eapply step_ok_trans; [apply A1|apply B1|]. eapply omono_trans; [exact O12|apply visit_expr_omono, Hn2].
+      * inversion H; subst. split; [|exact I]. eapply step_ok_weaken; [apply A1|exact O12].
+  - (* item *) bst H p1 E1. destruct p1 as [x s1]. bst H p2 E2. destruct p2 as [k s2].
+    destruct (eval2 _ _ _ _ _ _ _ _ t He E1 E2 Hg Hn Hi) as (A1 & A2 & A3 & _).
+    destruct (match x, k with VList l, VInt z => idx_list l z | _, _ => None end) eqn:Ei.
+    + inversion H; subst. split; auto. destruct x; try discriminate. destruct k; try discriminate.
+      eapply idx_list_good; [apply vgood_list, A2|exact Ei].
+    + bst H u E3. inversion H; subst. split; auto. unfold u_handle_undefined in E3.
+      destruct (c_mode c); destruct (is_undef x); inversion E3; exact I.
+  - (* attr *) bst H p1 E1. destruct p1 as [x s1]. destruct (eval1 _ _ _ _ _ t He E1 Hg Hn Hi) as (A1 & A2 & _).
+    destruct (match x with VLoop i n => loop_attr i n a | _ => None end) eqn:Ei.
+    + inversion H; subst. split; auto. destruct x; try discriminate. eapply loop_attr_good; eauto.
+    + bst H u E3. inversion H; subst. split; auto. unfold u_handle_undefined in E3.
+      destruct (c_mode c); destruct (is_undef x); inversion E3; exact I.
+  - (* filter *) bst H p1 E1. destruct p1 as [x s1]. bst H p2 E2. destruct p2 as [vs s2]. bst H r E3. inversion H; subst.
+    destruct (eval1 _ _ _ _ _ t He E1 Hg Hn Hi) as (A1 & A2 & A3 & A4 & A5).
+    destruct (map_eval_ok _ He _ _ _ _ _ E2 A5 A4 A3) as [B1 B2]. split.
+    + eapply step_ok_trans; [apply A1|apply B1|apply tsoft_omono, visit_list_soft', A4].
+    + eapply do_filter_good; [exact E3| |exact B2]. eapply vgood_step; eauto.
+  - (* test *) bst H p1 E1. destruct p1 as [x s1]. bst H p2 E2. destruct p2 as [vs s2]. bst H r E3. inversion H; subst.
+    destruct (eval1 _ _ _ _ _ t He E1 Hg Hn Hi) as (A1 & A2 & A3 & A4 & A5).
+    destruct (map_eval_ok _ He _ _ _ _ _ E2 A5 A4 A3) as [B1 B2]. split; [|exact I].
+    eapply step_ok_trans; [apply A1|apply B1|apply tsoft_omono, visit_list_soft', A4].
+  - (* call *) bst H p1 E1. destruct p1 as [vs s1]. bst H p2 E2. destruct p2 as [kvs s2].
+    destruct (lookup c s2 f) as [fv s3] eqn:El.
+    set (t1 := t_lookup f t). assert (S1 : tsoft t t1) by (apply tsoft_lookup, Hn).
+    assert (Hn1 : nonempty t1) by (eapply tsoft_nonempty, S1).
+    assert (I1 : Inv c t1 s) by (eapply Inv_soft; [apply S1|exact Hi|apply lmono_refl]).
+    destruct (map_eval_ok _ He _ _ _ _ _ E1 Hg Hn1 I1) as [A1 A2].
+    set (t2 := visit_list args t1) in *. assert (S2 : tsoft t1 t2) by (apply visit_list_soft', Hn1).
+    assert (Hn2 : nonempty t2) by (eapply tsoft_nonempty, S2).
+    assert (I2 : Inv c t2 s1) by (eapply Inv_soft; [apply S2|exact I1|apply (step_ok_lmono _ _ _ A1)]).
+    destruct (map_eval_kw_ok _ He _ _ _ _ _ E2 (step_ok_sgood _ _ _ A1) Hn2 I2) as [B1 B2].
+    set (T := visit_kw kwargs t2) in *. assert (S3 : tsoft t2 T) by (apply visit_kw_soft', Hn2).
+    assert (AB : step_ok c (t_out T) s s2) by (eapply step_ok_trans; [apply A1|apply B1|apply tsoft_omono, S3]).
+    destruct (lookup_ok (t_out T) s2 f fv s3 El (step_ok_sgood _ _ _ AB)) as (C1 & C2 & C3 & C4 & _).
+    { intros Hl. apply (tsoft_omono _ _ S3), (tsoft_omono _ _ S2). eapply lookup_late; [exact Hi|apply (step_ok_lmono _ _ _ AB)|exact Hl]. }
+    assert (ABC : step_ok c (t_out T) s s3) by (eapply step_ok_trans; [apply AB|apply C1|apply omono_refl]).
+    destruct fv as [fv|]; [|discriminate]. destruct fv; try discriminate.
+    + (* a macro *)
+      assert (Gm : mgood (s_clos s3) m0 closure) by (apply (C2 _ eq_refl)).
+      assert (Gv : Forall (vgood (s_clos s3)) vs).
+      { eapply Forall_impl; [|apply A2]. intros w Hw. rewrite C4. eapply vgood_step; [apply B1|exact Hw]. }
+      assert (Gk : Forall (fun kv => vgood (s_clos s3) (snd kv)) kvs) by (rewrite C4; exact B2).
+      destruct (IHm esc _ _ _ _ _ _ _ H (step_ok_sgood _ _ _ ABC) Gm Gv Gk) as [D1 D2]. split; auto.
+      eapply step_ok_trans; [apply ABC| |apply omono_refl]. eapply step_ok_weaken; [apply D1|apply omono_nil].
+    + (* range *)
+      destruct (f0 =? N_range); [|discriminate]. destruct vs as [|v1 vs']; [discriminate|]. destruct v1; try discriminate.
+      destruct vs'; [|discriminate]. destruct kvs; [|discriminate]. inversion H; subst. split; auto.
+      apply vgood_list, range_list_good.
+Qed.
+
+Lemma assoc_good C (kw : list (name * value)) p v : Forall (fun kv => vgood C (snd kv)) kw -> assoc p kw = Some v -> vgood C v.
+Proof.
+  induction 1 as [|[k w] r Hw Hr IH]; cbn [assoc]; [discriminate|]. destruct (p =? k); auto. intros E. inversion E; subst. exact Hw.
+Qed.
+
+Lemma call_step fuel : all_specs fuel -> forall esc, call_spec (call_macro c (S fuel) esc).
+Proof.
+  intros (IHe & _ & _ & IHl) esc s mc cl args kwargs v s' H Hg Hm Ha Hk.
+  cbn [call_macro] in H.
+  destruct (Nat.ltb _ _); [discriminate|]. bst H bound E1.
+  match type of H with context [if ?b then _ else _] => destruct b end; [discriminate|].
+  bst H s1 E2. bst H p3 E3. destruct p3 as [sg s2]. inversion H; subst. clear H.
+  set (caller_v := match assoc N_caller kwargs with Some v => v | None => VUndef end) in *.
+  set (top := mkFrame (if m_caller mc then [(N_caller, caller_v)] else []) None None cl false) in *.
+  set (s0 := mkSt [top; base_frame] (s_clos s) [] (s_asks s)) in *.
+  set (ps := m_params mc) in *. set (ds := m_defaults mc) in *. set (body := m_body mc) in *.
+  assert (Gcv : vgood (s_clos s) caller_v).
+  { unfold caller_v. destruct (assoc N_caller kwargs) eqn:Ea; [eapply assoc_good; eauto|exact I]. }
+  assert (G0 : sgood s0).
+  { destruct Hg as (G1 & G2 & G3). unfold sgood, s0. cbn [s_env s_clos]. split; [discriminate|]. split; auto.
+    constructor; [|constructor; [|constructor]].
+    - split; [|cbn; intros; discriminate]. unfold top. cbn [f_locals]. intros x w. destruct (m_caller mc); cbn [assoc]; [|discriminate].
+      destruct (x =? N_caller); [|discriminate]. intros E. inversion E; subst. exact Gcv.
+    - split; cbn; intros; discriminate. }
+  set (tm0 := mkT [] [[]]).
+  assert (Hn0 : nonempty tm0) by (unfold nonempty; cbn; discriminate).
+  assert (I0 : Inv c tm0 s0) by (intros x Hx; cbn in Hx; discriminate).
+  destruct (bind_params_good (s_clos s) kwargs Hk _ _ _ E1 Ha) as [Gb Eb].
+  assert (Gr : Forall (fun kv => vgood (s_clos s0) (snd kv)) (rev bound)) by (apply Forall_rev, Gb).
+  destruct (store_args_ok _ ds (IHe esc) _ _ _ tm0 E2 G0 Hn0 I0 Gr) as [A1 A2].
+  rewrite map_rev, Eb in A1, A2.
+  change (visit_params_l ds (rev ps) tm0) with (visit_params ps ds tm0) in A1, A2.
+  set (tm1 := visit_params ps ds tm0) in *.
+  assert (Hn1 : nonempty tm1) by (eapply tstep_nonempty, visit_params_step, Hn0).
+  destruct (IHl esc _ _ _ _ tm1 E3 (step_ok_sgood _ _ _ A1) Hn1 A2) as [B1 _].
+  change (t_out (walk_list body tm1)) with (closure_raw ps ds body) in B1.
+  assert (AB : step_ok c (closure_raw ps ds body) s0 s2).
+  { eapply step_ok_trans; [apply A1|apply B1|]. apply (walk_list_omono body tm1 Hn1). }
+  (* every name the macro can ask for is in its closure (or is `caller`): nothing is asked *)
+  assert (Loc : forall x, mem x (closure_raw ps ds body) = true -> localb c s0 x = true).
+  { intros x Hx. unfold localb, s0. cbn [s_env s_clos]. rewrite load_cons. unfold frame_find, top. cbn [f_locals f_loop f_closure_ctx].
+    destruct Hm as [Hm1 Hm2]. fold ps ds body in Hm1, Hm2.
+    destruct (x =? N_caller) eqn:Ec.
+    - apply Z.eqb_eq in Ec. subst x. unfold uses_caller in Hm1. rewrite Hx in Hm1. rewrite Hm1. cbn [assoc]. rewrite Z.eqb_refl. reflexivity.
+    - destruct (assoc x (if m_caller mc then [(N_caller, caller_v)] else [])); [reflexivity|].
+      assert (Hin : In x (macro_closure ps ds body)).
+      { unfold macro_closure. apply filter_In. split; [apply mem_In, Hx|rewrite Ec; reflexivity]. }
+      destruct (Hm2 x Hin) as (id & -> & Hc). destruct (cget (s_clos s) id x); [reflexivity|congruence]. }
+  destruct AB as (X1 & X2 & (l & El & Hl)).
+  assert (l = []) as ->.
+  { destruct l as [|x l']; [reflexivity|]. exfalso. destruct (Hl x (or_introl eq_refl)) as [H1 H2]. rewrite (Loc x H1) in H2. discriminate. }
+  cbn [app] in El. unfold s0 in El. cbn [s_asks] in El.
+  assert (CE : clos_ext (s_clos s) (s_clos s2)) by (apply (sext_clos _ _ X1)).
+  split; [|exact I]. split; [|split].
+  - apply eext_sext; [apply Hg|]. split; [reflexivity|exact CE].
+  - destruct Hg as (G1 & G2 & G3). unfold sgood. cbn [s_env s_clos]. split; auto. split; [|apply X2].
+    eapply Forall_impl; [|apply G2]. intros fr. apply frame_good_mono, CE.
+  - apply asks_in_refl. cbn [s_asks]. exact El.
+Qed.
+
+Lemma same_ctx_lmono s s' : same_ctx s s' -> lmono c s s'.
+Proof. intros E x. rewrite (same_ctx_localb c s s' x E). auto. Qed.
+Lemma same_ctx_sym s s' : same_ctx s s' -> same_ctx s' s.
+Proof. intros (A & B & D). repeat split; auto. Qed.
+Lemma emit_same s chunk : same_ctx s (emit s chunk).
+Proof. repeat split. Qed.
+Lemma with_out_same s o : same_ctx s (with_out s o).
+Proof. repeat split. Qed.
+
+Lemma t_assign_out x t : t_out (t_assign x t) = t_out t.
+Proof. unfold t_assign. destruct (t_assigned t); reflexivity. Qed.
+Lemma t_pop_out t : t_out (t_pop t) = t_out t.
+Proof. reflexivity. Qed.
+
+(* the names Enclose asks the context for are reported by the walk over the macro *)
+Lemma enclose_asks_reported ps ds body t s y : Inv c t s ->
+  In y (macro_closure ps ds body) -> localb c s y = false ->
+  mem y (t_out (t_pop (visit_macro true ps ds body (t_push t)))) = true.
+Proof.
+  intros Hi Hy Hl. unfold macro_closure in Hy. apply filter_In in Hy as [Hy1 Hy2].
+  assert (Hc : y <> N_caller) by (intros ->; rewrite Z.eqb_refl in Hy2; discriminate).
+  apply mem_In in Hy1. rewrite t_pop_out.
+  destruct (asgl (t_assigned t) y) eqn:Ea.
+  - destruct (Hi y Ea) as [H|H]; [|congruence].
+    assert (S : tstep (t_push t) (visit_macro true ps ds body (t_push t))).
+    { apply visit_macro_step; [|apply push_nonempty]. apply Forall_forall. intros st _. apply walk_step. }
+    apply (tstep_omono _ _ S). exact H.
+  - apply closure_in_context; auto.
+Qed.
+
+Lemma visit_macro_step' dc ps ds body t : nonempty t -> tstep t (visit_macro dc ps ds body t).
+Proof. intros Hn. apply visit_macro_step; auto. apply Forall_forall. intros st _. apply walk_step. Qed.
+
+Lemma exec_step fuel : all_specs fuel -> forall esc, exec_spec (exec c (S fuel) esc).
+Proof.
+  intros (IHe & IHm & _ & IHl) esc s st sg s' t H Hg Hn Hi. assert (He := IHe esc).
+  rewrite walk_eq. cbn [exec] in H. destruct st.
+  - (* raw *) inversion H; subst. split; [apply step_ok_same; [exact Hg|apply emit_same]|].
+    intros _. eapply Inv_lmono; [exact Hi|apply same_ctx_lmono, emit_same].
+  - (* emit *) bst H p1 E1. destruct p1 as [v s1]. destruct (_ && _); [discriminate|]. inversion H; subst.
+    destruct (eval1 _ _ _ _ _ t He E1 Hg Hn Hi) as (A1 & A2 & A3 & A4 & A5). split.
+    + eapply step_ok_trans; [apply A1|apply step_ok_same; [exact A5|apply emit_same]|apply omono_refl].
+    + intros _. eapply Inv_lmono; [exact A3|apply same_ctx_lmono, emit_same].
+  - (* if *) eapply if_arms_ok; eauto.
+  - (* for *)
+    bst H p1 E1. destruct p1 as [iv s1]. bst H items0 E2. bst H p3 E3. destruct p3 as [items s2]. bst H s5 E4.
+    destruct (eval1 _ _ _ _ _ t He E1 Hg Hn Hi) as (A1 & A2 & A3 & A4 & A5).
+    cbn zeta. set (t1 := visit_expr iter t) in *.
+    set (ta := assign_target t0 (t_push t1)).
+    set (tfv := match filter with Some f => visit_expr f ta | None => ta end).
+    set (tb := t_assign N_loop tfv).
+    set (t6 := t_pop (walk_list body tb)).
+    set (T := t_pop (match els with Some b => walk_list b (t_push t6) | None => t_push t6 end)).
+    assert (Sa : tstep (t_push t1) ta) by (apply assign_target_step, push_nonempty).
+    assert (Hna : nonempty ta) by (eapply tstep_nonempty, Sa).
+    assert (Sv : tsoft ta tfv) by (unfold tfv; destruct filter; [apply visit_expr_soft, Hna|apply tsoft_refl, Hna]).
+    assert (Hnv : nonempty tfv) by (eapply tsoft_nonempty, Sv).
+    assert (Sb : tstep tfv tb) by (apply tstep_assign, Hnv).
+    assert (Hnb : nonempty tb) by (eapply tstep_nonempty, Sb).
+    assert (Sw : tstep tb (walk_list body tb)) by (apply walk_list_step', Hnb).
+    assert (Sall : tstep (t_push t1) (walk_list body tb)).
+    { eapply tstep_trans; [apply Sa|]. eapply tstep_trans; [apply tsoft_step, Sv|]. eapply tstep_trans; [apply Sb|apply Sw]. }
+    assert (S16 : tsoft t1 t6) by (apply tstep_push_pop; auto).
+    assert (Hn6 : nonempty t6) by (eapply tsoft_nonempty, S16).
+    assert (S6T : tsoft t6 T).
+    { unfold T. apply tstep_push_pop; auto. destruct els; [apply walk_list_step', push_nonempty|apply tstep_refl, push_nonempty]. }
+    assert (Ofv : omono (t_out tfv) (t_out t6)).
+    { unfold t6. rewrite t_pop_out. eapply omono_trans; [apply tstep_omono, Sb|apply tstep_omono, Sw]. }
+    assert (O6T := tsoft_omono _ _ S6T).
+    (* the items *)
+    assert (G0 : Forall (vgood (s_clos s1)) items0).
+    { destruct iv; try discriminate; try (destruct (u_strictish _); try discriminate); injection E2 as <-; first [apply vgood_list; exact A2 | constructor]. }
+    assert (F : step_ok c (t_out tfv) s1 s2 /\ Forall (vgood (s_clos s2)) items).
+    { unfold tfv. destruct filter as [fe|].
+      - eapply (filter_items_ok _ t0 fe t1 s1 He A4 A3); eauto. apply lmono_refl.
+      - inversion E3; subst. split; [apply step_ok_refl, A5|exact G0]. }
+    destruct F as [F1 F2].
+    assert (I12 : Inv c t1 s2) by (eapply Inv_lmono; [exact A3|apply (step_ok_lmono _ _ _ F1)]).
+    assert (G2 := step_ok_sgood _ _ _ F1).
+    (* the iterations *)
+    set (n := lenZ items) in *. set (O := t_out (walk_list body tb)).
+    assert (L0 : loop_state n O s2 (push_frame s2 (loop_frame0 n true))).
+    { split; [apply sext_refl; cbn; discriminate|]. split; [apply push_sgood; [exact G2|apply fresh_frame_good]|]. apply asks_in_refl. reflexivity. }
+    destruct (loop_items_ok _ t0 body n filter t1 s2 (IHl esc) A4 I12 G2 _ _ _ _ E4 L0 F2) as (X1 & X2 & X3).
+    fold ta tfv tb O in X3.
+    destruct (pop_sext s2 _ s5 (proj1 G2) X1) as [Y1 Y2].
+    assert (G6 : sgood (pop_frame s5)) by (eapply pop_sgood; eauto; apply G2).
+    set (s6 := pop_frame s5) in *.
+    assert (L26 : step_ok c (t_out t6) s2 s6).
+    { split; [exact Y1|]. split; [exact G6|]. eapply asks_in_eq; [| |apply X3]; reflexivity. }
+    assert (I6 : Inv c t6 s6) by (eapply Inv_soft; [apply S16|exact I12|apply (step_ok_lmono _ _ _ L26)]).
+    assert (Pre : step_ok c (t_out t6) s s6).
+    { eapply step_ok_trans; [|apply L26|apply omono_refl].
+      eapply step_ok_trans; [apply A1| |apply (tsoft_omono _ _ S16)]. eapply step_ok_weaken; [apply F1|exact Ofv]. }
+    assert (NoElse : Ok (SigNormal, s6) = Ok (sg, s') -> step_ok c (t_out T) s s' /\ (sg = SigNormal -> Inv c T s')).
+    { intros E. inversion E; subst. split; [eapply step_ok_weaken; [apply Pre|exact O6T]|].
+      intros _. eapply Inv_soft; [apply S6T|exact I6|apply lmono_refl]. }
+    destruct items as [|i0 items']; [|apply NoElse, H]. destruct els as [eb|]; [|apply NoElse, H].
+    assert (Ip : Inv c (t_push t6) s6) by (eapply Inv_push; [exact I6|apply lmono_refl]).
+    destruct (IHl esc _ _ _ _ (t_push t6) H G6 (push_nonempty t6) Ip) as [B1 _]. split.
+    + eapply step_ok_trans; [apply Pre| |exact O6T]. eapply step_ok_weaken; [apply B1|]. unfold T. rewrite t_pop_out. apply omono_refl.
+    + intros _. eapply Inv_soft; [apply S6T|exact I6|apply (step_ok_lmono _ _ _ B1)].
+  - (* set *) bst H p1 E1. destruct p1 as [v s1]. inversion H; subst.
+    destruct (eval1 _ _ _ _ _ t He E1 Hg Hn Hi) as (A1 & A2 & A3 & A4 & A5).
+    assert (S1 := store_step_ok c (t_out (t_assign x (visit_expr e t))) s1 x v A5 A2). split.
+    + eapply step_ok_trans; [apply A1|apply S1|]. rewrite t_assign_out. apply omono_refl.
+    + intros _. eapply Inv_assign; [exact A4|exact A3|apply (step_ok_lmono _ _ _ S1)|apply store_local, A5].
+  - (* set block *)
+    bst H p1 E1. destruct p1 as [[sg0 txt] s1]. bst E1 p2 E2. destruct p2 as [sg1 s1']. inversion E1; subst. clear E1.
+    set (t2 := t_pop (walk_list body (t_push t))).
+    assert (S2 : tsoft t t2) by (apply scoped_body_soft', Hn).
+    assert (Hn2 : nonempty t2) by (eapply tsoft_nonempty, S2).
+    assert (G0 : sgood (with_out s [])) by (eapply same_ctx_sgood; [apply with_out_same|exact Hg]).
+    assert (Ip : Inv c (t_push t) (with_out s [])) by (eapply Inv_push; [exact Hi|apply same_ctx_lmono, with_out_same]).
+    destruct (IHl esc _ _ _ _ (t_push t) E2 G0 (push_nonempty t) Ip) as [B1 _].
+    set (sa := with_out s1' (s_out s)) in *.
+    assert (Sa : step_ok c (t_out t2) s sa).
+    { eapply step_ok_trans; [apply step_ok_same; [exact Hg|apply (with_out_same s [])]| |apply omono_refl].
+      eapply step_ok_trans; [apply B1|apply step_ok_same; [apply B1|apply with_out_same]|]. unfold t2. rewrite t_pop_out. apply omono_refl. }
+    destruct sg0.
+    + bst H v E3. inversion H; subst.
+      assert (Gv : vgood (s_clos sa) v).
+      { destruct filter; [eapply do_filter_good; [exact E3|exact I|constructor]|inversion E3; exact I]. }
+      assert (S1 := store_step_ok c (t_out (t_assign x t2)) sa x v (step_ok_sgood _ _ _ Sa) Gv). split.
+      * eapply step_ok_trans; [apply Sa|apply S1|]. rewrite t_assign_out. apply omono_refl.
+      * intros _. eapply Inv_assign; [exact Hn2| |apply (step_ok_lmono _ _ _ S1)|apply store_local, (step_ok_sgood _ _ _ Sa)].
+        eapply Inv_soft; [apply S2|exact Hi|apply (step_ok_lmono _ _ _ Sa)].
+    + inversion H; subst. split; [|intros; discriminate]. eapply step_ok_weaken; [apply Sa|]. rewrite t_assign_out. apply omono_refl.
+    + inversion H; subst. split; [|intros; discriminate]. eapply step_ok_weaken; [apply Sa|]. rewrite t_assign_out. apply omono_refl.
+  - (* with *)
+    bst H s1 E1. bst H p2 E2. destruct p2 as [sg0 s2]. inversion H; subst. clear H.
+    set (sp := push_frame s empty_frame) in *.
+    assert (Gp : sgood sp) by (apply push_sgood; [exact Hg|apply fresh_frame_good]).
+    assert (Ip : Inv c (t_push t) sp) by (eapply Inv_push; [exact Hi|apply push_lmono; reflexivity]).
+    destruct (with_binds_ok _ He _ _ _ (t_push t) E1 Gp (push_nonempty t) Ip) as [A1 A2].
+    set (tw := visit_binds binds (t_push t)) in *.
+    assert (Sw : tstep (t_push t) tw) by (apply visit_binds_step, push_nonempty).
+    assert (Hnw : nonempty tw) by (eapply tstep_nonempty, Sw).
+    destruct (IHl esc _ _ _ _ tw E2 (step_ok_sgood _ _ _ A1) Hnw A2) as [B1 _].
+    assert (AB : step_ok c (t_out (walk_list body tw)) sp s2).
+    { eapply step_ok_trans; [apply A1|apply B1|apply walk_list_omono, Hnw]. }
+    assert (P := scoped_step _ s empty_frame s2 Hg eq_refl AB). split; [exact P|].
+    intros _. eapply Inv_scoped; [|exact Hi|apply (step_ok_lmono _ _ _ P)].
+    eapply tstep_trans; [apply Sw|apply walk_list_step', Hnw].
+  - (* macro *)
+    destruct (enclose c s _) as [s1 cl] eqn:E. inversion H; subst. clear H.
+    destruct (enclose_spec c Hroot _ _ _ _ E Hg) as (X1 & X2 & X3 & X4 & _).
+    set (t2 := t_pop (visit_macro true params defaults body (t_push t))).
+    assert (S2 : tsoft t t2) by (apply tstep_push_pop; [exact Hn|apply visit_macro_step', push_nonempty]).
+    assert (Hn2 : nonempty t2) by (eapply tsoft_nonempty, S2).
+    set (mc := mkMacro m0 params defaults body (uses_caller params defaults body)).
+    assert (Gm : vgood (s_clos s1) (VMacro mc cl)) by (split; [reflexivity|exact X4]).
+    assert (E1 : step_ok c (t_out (t_assign m0 t2)) s s1).
+    { split; [exact X1|]. split; [exact X2|]. eapply asks_in_weaken; [|apply X3]. intros y [Hy1 Hy2]. split; [|exact Hy2].
+      rewrite t_assign_out. eapply enclose_asks_reported; eauto. }
+    assert (S1 := store_step_ok c (t_out (t_assign m0 t2)) s1 m0 (VMacro mc cl) X2 Gm). split.
+    + eapply step_ok_trans; [apply E1|apply S1|apply omono_refl].
+    + intros _. eapply Inv_assign; [exact Hn2| |apply (step_ok_lmono _ _ _ S1)|apply store_local, X2].
+      eapply Inv_soft; [apply S2|exact Hi|apply sext_lmono, X1].
+  - (* call block *)
+    bst H p1 E1. destruct p1 as [vs s1].
+    destruct (enclose c s1 _) as [s2 cl] eqn:E. destruct (lookup c s2 m0) as [fv s3] eqn:El.
+    set (t1 := t_lookup m0 t). assert (S1 : tsoft t t1) by (apply tsoft_lookup, Hn).
+    assert (Hn1 : nonempty t1) by (eapply tsoft_nonempty, S1).
+    assert (I1 : Inv c t1 s) by (eapply Inv_soft; [apply S1|exact Hi|apply lmono_refl]).
+    destruct (map_eval_ok _ He _ _ _ _ _ E1 Hg Hn1 I1) as [A1 A2].
+    set (t2 := visit_list args t1) in *. assert (S2 : tsoft t1 t2) by (apply visit_list_soft', Hn1).
+    assert (Hn2 : nonempty t2) by (eapply tsoft_nonempty, S2).
+    assert (I2 : Inv c t2 s1) by (eapply Inv_soft; [apply S2|exact I1|apply (step_ok_lmono _ _ _ A1)]).
+    set (T := t_pop (visit_macro true [] [] body (t_push t2))).
+    assert (S3 : tsoft t2 T) by (apply tstep_push_pop; [exact Hn2|apply visit_macro_step', push_nonempty]).
+    assert (O2T := tsoft_omono _ _ S3).
+    destruct (enclose_spec c Hroot _ _ _ _ E (step_ok_sgood _ _ _ A1)) as (X1 & X2 & X3 & X4 & _).
+    assert (E2 : step_ok c (t_out T) s1 s2).
+    { split; [exact X1|]. split; [exact X2|]. eapply asks_in_weaken; [|apply X3]. intros y [Hy1 Hy2]. split; [|exact Hy2].
+      eapply enclose_asks_reported; eauto. }
+    assert (A12 : step_ok c (t_out T) s s2) by (eapply step_ok_trans; [apply A1|apply E2|exact O2T]).
+    destruct (lookup_ok (t_out T) s2 m0 fv s3 El X2) as (C1 & C2 & C3 & C4 & _).
+    { intros Hl. apply O2T, (tsoft_omono _ _ S2). eapply lookup_late; [exact Hi|apply (step_ok_lmono _ _ _ A12)|exact Hl]. }
+    assert (A13 : step_ok c (t_out T) s s3) by (eapply step_ok_trans; [apply A12|apply C1|apply omono_refl]).
+    destruct fv as [fv|]; [|discriminate]. destruct fv; try discriminate.
+    bst H p4 E4. destruct p4 as [v s4]. inversion H; subst. clear H.
+    assert (Gm : mgood (s_clos s3) m1 closure) by (apply (C2 _ eq_refl)).
+    assert (Gv : Forall (vgood (s_clos s3)) vs).
+    { eapply Forall_impl; [|apply A2]. intros w Hw. rewrite C4. eapply vgood_step; [apply E2|exact Hw]. }
+    assert (Gk : Forall (fun kv => vgood (s_clos s3) (snd kv)) [(N_caller, VMacro (mkMacro N_caller [] [] body (uses_caller [] [] body)) cl)]).
+    { constructor; [|constructor]. cbn [snd]. rewrite C4. split; [reflexivity|exact X4]. }
+    destruct (IHm esc _ _ _ _ _ _ _ E4 (step_ok_sgood _ _ _ A13) Gm Gv Gk) as [D1 D2].
+    assert (A14 : step_ok c (t_out T) s s4).
+    { eapply step_ok_trans; [apply A13| |apply omono_refl]. eapply step_ok_weaken; [apply D1|apply omono_nil]. }
+    split.
+    + eapply step_ok_trans; [apply A14|apply step_ok_same; [apply A14|apply emit_same]|apply omono_refl].
+    + intros _. eapply Inv_soft; [eapply tsoft_trans; [apply S1|]; eapply tsoft_trans; [apply S2|apply S3]|exact Hi|].
+      eapply lmono_trans; [apply (step_ok_lmono _ _ _ A14)|apply same_ctx_lmono, emit_same].
+  - (* filter block *)
+    bst H p1 E1. destruct p1 as [[sg0 txt] s1]. bst E1 p2 E2. destruct p2 as [sg1 s1']. inversion E1; subst. clear E1.
+    set (t2 := t_pop (walk_list body (t_push t))).
+    assert (S2 : tsoft t t2) by (apply scoped_body_soft', Hn).
+    assert (G0 : sgood (with_out s [])) by (eapply same_ctx_sgood; [apply with_out_same|exact Hg]).
+    assert (Ip : Inv c (t_push t) (with_out s [])) by (eapply Inv_push; [exact Hi|apply same_ctx_lmono, with_out_same]).
+    destruct (IHl esc _ _ _ _ (t_push t) E2 G0 (push_nonempty t) Ip) as [B1 _].
+    set (sa := with_out s1' (s_out s)) in *.
+    assert (Sa : step_ok c (t_out t2) s sa).
+    { eapply step_ok_trans; [apply step_ok_same; [exact Hg|apply (with_out_same s [])]| |apply omono_refl].
+      eapply step_ok_trans; [apply B1|apply step_ok_same; [apply B1|apply with_out_same]|]. unfold t2. rewrite t_pop_out. apply omono_refl. }
+    assert (Ia : Inv c t2 sa) by (eapply Inv_soft; [apply S2|exact Hi|apply (step_ok_lmono _ _ _ Sa)]).
+    destruct sg0.
+    + bst H v E3. inversion H; subst. split.
+      * eapply step_ok_trans; [apply Sa|apply step_ok_same; [apply Sa|apply emit_same]|apply omono_refl].
+      * intros _. eapply Inv_lmono; [exact Ia|apply same_ctx_lmono, emit_same].
+    + inversion H; subst. split; [exact Sa|intros; discriminate].
+    + inversion H; subst. split; [exact Sa|intros; discriminate].
+  - (* autoescape *)
+    bst H p1 E1. destruct p1 as [v0 s1]. bst H esc' E2.
+    destruct (eval1 _ _ _ _ _ t He E1 Hg Hn Hi) as (A1 & A2 & A3 & A4 & A5).
+    set (t1 := visit_expr v t) in *. set (T := t_pop (walk_list body (t_push t1))).
+    assert (S1 : tsoft t1 T) by (apply scoped_body_soft', A4).
+    assert (Ip : Inv c (t_push t1) s1) by (eapply Inv_push; [exact A3|apply lmono_refl]).
+    destruct (IHl esc' _ _ _ _ (t_push t1) H A5 (push_nonempty t1) Ip) as [B1 _]. split.
+    + eapply step_ok_trans; [apply A1| |apply (tsoft_omono _ _ S1)]. eapply step_ok_weaken; [apply B1|]. unfold T. rewrite t_pop_out. apply omono_refl.
+    + intros _. eapply Inv_soft; [apply S1|exact A3|apply (step_ok_lmono _ _ _ B1)].
+  - (* break *) inversion H; subst. split; [apply step_ok_refl, Hg|intros; discriminate].
+  - (* continue *) inversion H; subst. split; [apply step_ok_refl, Hg|intros; discriminate].
+Qed.
+
+Lemma exec_list_step fuel : all_specs fuel -> forall esc, exec_list_spec (exec_list c (S fuel) esc).
+Proof.
+  intros (_ & _ & IHx & IHl) esc s l sg s' t H Hg Hn Hi. cbn [exec_list] in H. destruct l as [|st r].
+  - inversion H; subst. split; [apply step_ok_refl, Hg|intros _; exact Hi].
+  - bst H p1 E1. destruct p1 as [sg0 s1].
+    destruct (IHx esc _ _ _ _ t E1 Hg Hn Hi) as [A1 A2].
+    change (walk_list (st :: r) t) with (walk_list r (walk st t)).
+    assert (Hn1 : nonempty (walk st t)) by (eapply tstep_nonempty, walk_step, Hn).
+    assert (Om : omono (t_out (walk st t)) (t_out (walk_list r (walk st t)))) by (apply walk_list_omono, Hn1).
+    destruct sg0; try (inversion H; subst; split; [eapply step_ok_weaken; eauto|intros; discriminate]).
+    destruct (IHl esc _ _ _ _ (walk st t) H (step_ok_sgood _ _ _ A1) Hn1 (A2 eq_refl)) as [B1 B2]. split; auto.
+    eapply step_ok_trans; eauto.
+Qed.
+
+Theorem all_specs_hold : forall fuel, all_specs fuel.
+Proof.
+  induction fuel as [|fuel IH].
+  - repeat split; intros; discriminate.
+  - split; [apply eval_step, IH|]. split; [apply call_step, IH|]. split; [apply exec_step, IH|apply exec_list_step, IH].
+Qed.
+End Main.
+
+(* ---- the theorem ---- *)
+Definition plain_context (c : cfg) : bool := forallb (fun kv => vplain (snd kv)) (c_root c).
+
+Lemma plain_root_good c : plain_context c = true -> root_good c.
+Proof.
+  unfold plain_context, root_good. intros H C x v. induction (c_root c) as [|[k w] r IH]; cbn [assoc]; [discriminate|].
+  cbn [forallb snd] in H. apply andb_prop in H as [H1 H2]. destruct (x =? k); [|apply IH, H2].
+  intros E. inversion E; subst. apply vplain_good, H1.
+Qed.
+
+Lemma init_good c : sgood (init_state) /\ Inv c (mkT [] [[]]) init_state /\ nonempty (mkT [] [[]]).
+Proof.
+  split; [|split].
+  - unfold sgood, init_state. cbn [s_env s_clos]. split; [discriminate|]. split.
+    + constructor; [|constructor]. split; cbn; intros; discriminate.
+    + intros id x v. unfold cget. destruct id; cbn; discriminate.
+  - intros x Hx. cbn in Hx. discriminate.
+  - unfold nonempty. cbn. discriminate.
+Qed.
+
+Lemma undeclared_sound_proof (c : cfg) (fuel : nat) (body : list stmt) (s : st) :
+  plain_context c = true -> Interp.run c fuel body = Ok s ->
+  forall x, In x (s_asks s) -> In x (find_undeclared body).
+Proof.
+  intros Hp Hr x Hx. assert (Hroot := plain_root_good c Hp).
+  unfold Interp.run in Hr. apply bind_ok in Hr as ([sg s1] & H1 & Hr). inversion Hr; subst. clear Hr.
+  destruct (all_specs_hold c Hroot fuel) as (_ & _ & _ & Hl).
+  destruct (init_good c) as (G & I0 & N0).
+  destruct (Hl (c_escape c) _ _ _ _ (mkT [] [[]]) H1 G N0 I0) as [(_ & _ & (l & El & Hin)) _].
+  unfold init_state in El. cbn [s_asks] in El. rewrite app_nil_r in El. rewrite El in Hx.
+  apply mem_In. apply (Hin x Hx).
+Qed.
+
+(* a render that fails inside its k-th top-level statement: what the completed statements before it
+   asked for is in the report of the whole template *)
+Lemma undeclared_sound_prefix_proof (c : cfg) (fuel : nat) (done rest : list stmt) (s : st) :
+  plain_context c = true -> Interp.run c fuel done = Ok s ->
+  forall x, In x (s_asks s) -> In x (find_undeclared (done ++ rest)).
+Proof.
+  intros Hp Hr x Hx. assert (H := undeclared_sound_proof c fuel done s Hp Hr x Hx).
+  unfold find_undeclared in *. unfold walk_list in *. rewrite fold_left_app.
+  apply mem_In. apply mem_In in H.
+  assert (N : nonempty (fold_left (fun t s0 => walk s0 t) done (mkT [] [[]]))).
+  { eapply tstep_nonempty. apply (walk_list_step' done). unfold nonempty. cbn. discriminate. }
+  apply (tstep_omono _ _ (walk_list_step' rest _ N)). exact H.
+Qed.
+
+(* calling a well-formed macro never asks the render context for anything: every free name of the
+   macro is in its closure *)
+Lemma macro_call_asks_nothing_proof (c : cfg) fuel esc s mc cl args kwargs v s' :
+  plain_context c = true -> sgood s -> mgood (s_clos s) mc cl ->
+  Forall (vgood (s_clos s)) args -> Forall (fun kv => vgood (s_clos s) (snd kv)) kwargs ->
+  call_macro c fuel esc s mc cl args kwargs = Ok (v, s') -> s_asks s' = s_asks s.
+Proof.
+  intros Hp Hg Hm Ha Hk H. assert (Hroot := plain_root_good c Hp).
+  destruct (all_specs_hold c Hroot fuel) as (_ & Hc & _ & _).
+  destruct (Hc esc _ _ _ _ _ _ _ H Hg Hm Ha Hk) as [(_ & _ & (l & El & Hin)) _].
+  destruct l as [|x l']; [exact El|]. destruct (Hin x (or_introl eq_refl)) as [Hx _]. discriminate.
+Qed.
+
+(* ---- the tracker before the fix: refuted on each construct whose visit order was wrong ---- *)
+Definition asked_not_reported (report : list stmt -> list name) (c : cfg) (fuel : nat) (body : list stmt) : bool :=
+  match Interp.run c fuel body with
+  | Ok s => existsb (fun x => negb (mem x (report body))) (s_asks s)
+  | _ => false
+  end.
+
+Definition X : name := 100.
+Definition M : name := 101.
+Definition Y : name := 102.
+Definition cfg0 := mkCfg Lenient [] false.
+Definition p_set := [SSet X (EVar X)].                                              (* {% set x = x %} *)
+Definition p_with := [SWith [(X, EVar X)] []].                                      (* {% with x = x %}{% endwith %} *)
+Definition p_setblock := [SSetBlock X [SEmit (EVar X)] None].                       (* {% set x %}{{ x }}{% endset %} *)
+Definition p_macro_default := [SMacro M [X] [(X, EVar X)] [SEmit (EVar X)]; SEmit (ECall M [] [])].   (* {% macro m(x=x) %}{{ x }}{% endmacro %}{{ m() }} *)
+Definition p_macro_default2 := [SMacro M [Y; X] [(X, EVar Y)] [SEmit (EVar X)]; SEmit (ECall M [EConst (LInt 1)] [])]. (* {% macro m(y, x=y) %} *)
+Definition p_macro_rec := [SMacro M [] [] [SEmit (EVar M)]].                        (* {% macro m() %}{{ m }}{% endmacro %} *)
+Definition p_loop_iter := [SFor (TVar X) (EVar N_loop) None [] None false].          (* {% for x in loop %}{% endfor %} *)
+Definition p_loop_filter := [SFor (TVar X) (EList [EConst (LInt 1)]) (Some (EVar N_loop)) [] None false]. (* {% for x in [1] if loop %} *)
+Definition p_autoescape := [SAutoEscape (EVar X) []].                               (* {% autoescape x %}{% endautoescape %} *)
+Definition refutation_programs := [p_set; p_with; p_setblock; p_macro_default; p_macro_default2; p_macro_rec; p_loop_iter; p_loop_filter; p_autoescape].
+
+Lemma refuted_before_fix_proof :
+  forallb (asked_not_reported find_undeclared_old cfg0 50) refutation_programs = true /\
+  forallb (fun p => negb (asked_not_reported find_undeclared cfg0 50 p)) refutation_programs = true.
+Proof. split; vm_compute; reflexivity. Qed.
+
+(* non-vacuity: a program with a set, a macro with a default that reads the context, a filtered loop and
+   a call block, rendered with a context of plain values: renders "8182", asks the context five times
+   (y at the macro declaration, x, y twice in the loop filter, an undefined name at the end) *)
+Definition demo_ctx := mkCfg Lenient [(X, VList [VInt 1; VInt 2]); (Y, VInt 5)] false.
+Definition demo_body : list stmt :=
+  [ SSet 104 (EConst (LInt 3));
+    SMacro M [103] [(103, EVar Y)] [SEmit (EBin OAdd (EVar 103) (EVar 104)); SEmit (ECall N_caller [] [])];
+    SFor (TVar 105) (EVar X) (Some (ECmp (EVar 105) [(CLt, EVar Y)])) [SCallBlock M [] [SEmit (EVar 105)]] None false;
+    SEmit (EVar 106) ].
+Lemma demo_runs : exists s, Interp.run demo_ctx 60 demo_body = Ok s /\ plain_context demo_ctx = true /\ length (s_asks s) = 5%nat.
+Proof. eexists. split; [vm_compute; reflexivity|]. split; reflexivity. Qed.
